@@ -82,14 +82,12 @@ func swarm(r *core.Rand, prop, tier string) *config {
 	c.base = []int{0, 1, 7, 100, 20000}[r.Intn(5)]
 	c.nids = r.Range(2, 3)
 	c.conflictPct = []int{0, 10, 25, 45}[r.Weighted([]int{10, 40, 35, 15})]
-	// A spender of a coinbase's NON-wallet output is only generated for C02
-	// (see the finding recorded for signature
-	// rollback:coinbase-dependant-via-non-wallet-output-kept): whether such a
-	// transaction is still "known" after the coinbase is disconnected is C02's
-	// subject; C01/C12/C13/C14 are about what is reported for the known set.
-	c.cbForeign = prop == "C02" && r.Chance(1, 6)
+	// A spender of a coinbase's NON-wallet output (the shape of the C02 finding
+	// rollback:coinbase-dependant-via-non-wallet-output-kept, fixed in /repo
+	// 000a2b8) is part of one universe in six.
+	c.cbForeign = r.Chance(1, 6)
 	c.nops = r.Range(10, 50)
-	if tier == "thorough" && r.Chance(1, 4) {
+	if tier == "thorough" && prop != "C10" && r.Chance(1, 4) {
 		c.nops = r.Range(70, 200)
 	}
 
